@@ -348,6 +348,15 @@ def _same_error(a, b):
     return type(a) is type(b)
 
 
+def _first_unrenderable(group, rd, as_batch, ri, ump):
+    """(index, inner op, exception) of the first op of a ModifyTableOps that cannot be rendered on its own"""
+    for k, inner in enumerate(group.ops):
+        r = render_one(autogen_context(rd, as_batch, ri, ump), ops.ModifyTableOps(group.table_name, [inner], schema=group.schema))
+        if r["error"] is not None:
+            return k, inner, r["exc"]
+    return None
+
+
 def oracle(case, dialects=DIALECTS, render_dialect=None):
     """one result per (top-level op, dialect).
 
@@ -398,6 +407,17 @@ def oracle(case, dialects=DIALECTS, render_dialect=None):
                     res["error"] += " / invoke: %r" % (err_i,)
                     if _same_error(r["exc"], err_i):
                         res["kind"] = "both-error-same"
+                    elif isinstance(o, ops.ModifyTableOps):
+                        # a ModifyTableOps group: rendering stops at the first op it cannot render, invoke at the first op
+                        # it cannot execute -- possibly another op.  Judge the op that cannot be rendered on its own: if
+                        # invoking THAT op alone is refused with the same exception, both paths refuse it (nothing to compare)
+                        hit = _first_unrenderable(o, rd, as_batch, ri, ump)
+                        if hit is not None:
+                            k, inner, exc_r = hit
+                            _, exc_i = sql_of_invoke(ops.ModifyTableOps(o.table_name, [inner], schema=o.schema), d, as_batch, tm)
+                            if exc_i is not None and _same_error(exc_r, exc_i) and str(exc_r) == str(exc_i):
+                                res["kind"] = "both-error-same"
+                                res["error"] += " / op %d of the group alone: render and invoke both raise %r" % (k, exc_i)
                 continue
             sql_e, ek, err_e = sql_of_exec(r["code"], d, tm, user_module_prefix=ump)
             res["sql_exec"] = sql_e
